@@ -314,6 +314,19 @@ theorem C03_spaced_eq_direct (n k : Nat) (spacing : List Nat) (hl : spacing.leng
         (List.range (seq.length - last)) :=
   kmersSpaced_spec n k spacing hl last hlast hmax seq
 
+/-- The hypotheses of `C03_spaced_eq_direct` are what `KmerAlphabet.__init__` establishes (it sorts
+the offsets): for every spacing model the constructor accepts — list or `"1011"` string — the
+spaced k-mers are the guarded `fuse` over the spaced windows. -/
+theorem C03_spaced_eq_direct_ctor (n k : Nat) (sp : SpacingArg) (spacing : List Nat)
+    (h : kmerNew k sp = .ok (some spacing)) (seq : List Nat) :
+    ∃ last, spacing.getLast? = some last ∧ (∀ o ∈ spacing, o ≤ last) ∧ spacing.length = k ∧
+      createKmers n k (some spacing) seq =
+        if seq.length < last + 1 then .error .valueError
+        else mapE (fun i => fuseChecked n k ((spacedWindow seq spacing i).map Int.ofNat))
+          (List.range (seq.length - last)) := by
+  obtain ⟨hl, last, hlast, hmax⟩ := kmerNew_spacing k sp spacing h
+  exact ⟨last, hlast, hmax, hl, kmersSpaced_spec n k spacing hl last hlast hmax seq⟩
+
 /-! ## Translation -/
 
 /-- Complete translation is the codon-by-codon table lookup: it is defined exactly for lengths
@@ -497,6 +510,7 @@ example : createKmers 4 3 none [0, 1, 2, 3, 3] = .ok [6, 27, 47] ∧ windows 3 [
 example : createKmers 4 3 none [0, 1, 2, 4, 3] = .error .alphabetError ∧ createKmers 4 3 none [0, 1] = .error .valueError := by decide
 example : createKmers 4 3 (some [0, 2, 3]) [0, 1, 2, 3, 3] = .ok [11, 31] ∧ spacedWindow [0, 1, 2, 3, 3] [0, 2, 3] 1 = [1, 3, 3] ∧
     ([0, 2, 3] : List Nat).getLast? = some 3 := by decide
+example : kmerNew 3 (.ints [3, 0, 2]) = .ok (some [0, 2, 3]) ∧ kmerNew 3 (.str "1011".toList) = .ok (some [0, 2, 3]) := by decide
 example : (Seq.new 0 [65, 67] [67, 65]).bind (fun s => s.reverse.symbols) = .ok [65, 67] := by decide
 example : (Seq.mk 0 [65, 67, 71] [2, 0, 1]).getItem (-1) = .ok 67 ∧ (Seq.mk 0 [65, 67, 71] [2, 0, 1]).getItem 3 = .error .indexError := by decide
 example : ((Seq.mk 0 [65, 67, 71] [2, 0, 1, 1]).slice (some (-3)) none).symbols = .ok [65, 67, 67] := by decide
